@@ -19,7 +19,7 @@
                     releases (noReleaseChecksum alias)
      2 frame        syncFramePool: its Release is a wrapper for *Frame; the call sites belong to
                     property C12 (GenSites.pool_sites, GenFrameUse)
-     3 relay timer  relayTimerPool.Get (addRelayItem) .. relayItems.Delete | deleteTomb, each item
+     3 relay timer  relayTimerPool.Get (addRelayItem) .. relayItems.Delete | deleteCall | deleteTomb, each item
                     deleted once under the items lock
      4 request state  getRequestState .. deferred Put of RunWithRetry
      5 scratch buffer of argreader.EnsureEmpty      6 scratch buffer of stats.MetricWithPrefix
@@ -128,6 +128,7 @@ Definition pool_site_table : list (ps_row * ps_role) :=
     (psr "tchannel.syncFramePool.Get" "Get" "tchannel.syncFramePool.pool" "" "", RGet 2);
     (psr "tchannel.syncFramePool.Release" "Put" "tchannel.syncFramePool.pool" "f" "", RHand);
     (psr "tchannel.relayItems.Delete" "PutVia" "tchannel.relayTimer.Release" "item.timeout" "", RPut 3);
+    (psr "tchannel.relayItems.deleteCall" "PutVia" "tchannel.relayTimer.Release" "item.timeout" "", RPut 3);
     (psr "tchannel.relayItems.deleteTomb" "PutVia" "tchannel.relayTimer.Release" "item.timeout" "", RPut 3);
     (psr "tchannel.relayTimerPool.Get" "Get" "tchannel.relayTimerPool.pool" "" "", RGet 3);
     (psr "tchannel.relayTimerPool.Put" "Put" "tchannel.relayTimerPool.pool" "rt" "", RHand);
